@@ -27,7 +27,9 @@ use crate::higher_order_function::HigherOrderReturnFieldArgs;
 use crate::type_coercion::functions::value_fields_with_higher_order_udf_and_lambdas;
 use crate::type_coercion::functions::{UDFCoercionExt, fields_with_udf};
 use crate::udf::ReturnFieldArgs;
-use crate::{LogicalPlan, Projection, Subquery, WindowFunctionDefinition, utils};
+use crate::{
+    LogicalPlan, Operator, Projection, Subquery, WindowFunctionDefinition, utils,
+};
 use arrow::compute::can_cast_types;
 use arrow::datatypes::FieldRef;
 use arrow::datatypes::{DataType, Field};
@@ -370,6 +372,11 @@ impl ExprSchemable for Expr {
                 Ok(expr_nullable | subquery_nullable)
             }
             Expr::ScalarSubquery(subquery) => Ok(scalar_subquery_nullable(subquery)),
+            // IS [NOT] DISTINCT FROM never returns NULL
+            Expr::BinaryExpr(BinaryExpr {
+                op: Operator::IsDistinctFrom | Operator::IsNotDistinctFrom,
+                ..
+            }) => Ok(false),
             Expr::BinaryExpr(BinaryExpr { left, right, .. }) => {
                 Ok(left.nullable(input_schema)? || right.nullable(input_schema)?)
             }
@@ -535,10 +542,15 @@ impl ExprSchemable for Expr {
                 let mut coercer = BinaryTypeCoercer::new(lhs_type, op, rhs_type);
                 coercer.set_lhs_spans(left.spans().cloned().unwrap_or_default());
                 coercer.set_rhs_spans(right.spans().cloned().unwrap_or_default());
+                // IS [NOT] DISTINCT FROM never returns NULL
+                let nullable = !matches!(
+                    op,
+                    Operator::IsDistinctFrom | Operator::IsNotDistinctFrom
+                ) && (lhs_nullable || rhs_nullable);
                 Ok(Arc::new(Field::new(
                     &schema_name,
                     coercer.get_result_type()?,
-                    lhs_nullable || rhs_nullable,
+                    nullable,
                 )))
             }
             Expr::WindowFunction(window_function) => {
